@@ -336,16 +336,18 @@ pub fn run(tier: Tier) {
                     for c_scope in 0..3usize {
                         for consumer_first in [false, true] {
                             for via_unverified in [false, true] {
-                                cfgs.push((root_alg, pre.clone(), p_signer, c_scope, consumer_first, via_unverified));
+                                for block_level in [false, true] {
+                                    cfgs.push((root_alg, pre.clone(), p_signer, c_scope, consumer_first, via_unverified, block_level));
+                                }
                             }
                         }
                     }
                 }
             }
         }
-        cfgs.par_iter().for_each(|(root_alg, pre, p_signer, c_scope, consumer_first, via_unverified)| {
+        cfgs.par_iter().for_each(|(root_alg, pre, p_signer, c_scope, consumer_first, via_unverified, block_level)| {
             scope_cfgs.fetch_add(1, Ordering::Relaxed);
-            let describe = || json!({"root": root_alg.name(), "carrier_key_table": pre.iter().map(|i| key_names[*i]).collect::<Vec<_>>(), "provider_signed_by": key_names[*p_signer], "consumer_scope": key_names[*c_scope], "consumer_before_provider": consumer_first, "through_unverified_api": via_unverified});
+            let describe = || json!({"root": root_alg.name(), "carrier_key_table": pre.iter().map(|i| key_names[*i]).collect::<Vec<_>>(), "provider_signed_by": key_names[*p_signer], "consumer_scope": key_names[*c_scope], "consumer_before_provider": consumer_first, "through_unverified_api": via_unverified, "scope_given_at_block_level": block_level});
             let r = guard(|| -> Result<String, String> {
                 let e = |x: biscuit_auth::error::Token| format!("{x:?}");
                 let mut t = biscuit_auth::builder::BiscuitBuilder::new().code("auth(0);").map_err(e)?.build_with_key_pair(&root(*root_alg), biscuit_auth::datalog::SymbolTable::new(), &key(Alg::Ed, ROLE_NEXT, 20)).map_err(e)?;
@@ -356,10 +358,14 @@ pub fn run(tier: Tier) {
                 // the consumer is signed by a key that is neither the provider's nor the one it names
                 let consumer_signer = (0..4usize).find(|k| k != p_signer && k != c_scope).unwrap();
                 let provider = ("pv(1);".to_string(), *p_signer);
-                let consumer = (format!("check if pv(1) trusting {};", pk_str(&keys[*c_scope].public())), consumer_signer);
+                let consumer = (if *block_level { "check if pv(1);".to_string() } else { format!("check if pv(1) trusting {};", pk_str(&keys[*c_scope].public())) }, consumer_signer);
                 let order = if *consumer_first { vec![consumer, provider] } else { vec![provider, consumer] };
                 for (n, (code, signer)) in order.iter().enumerate() {
-                    let block = biscuit_auth::builder::BlockBuilder::new().code(code).map_err(e)?;
+                    let mut block = biscuit_auth::builder::BlockBuilder::new().code(code).map_err(e)?;
+                    if *block_level && code.starts_with("check") {
+                        // the same scope given for the whole block through the builder API
+                        block = block.scope(biscuit_auth::builder::Scope::PublicKey(keys[*c_scope].public()));
+                    }
                     if *via_unverified {
                         let u = UnverifiedBiscuit::from(&t.to_vec().map_err(e)?).map_err(e)?;
                         let req = u.third_party_request().map_err(e)?;
